@@ -1839,6 +1839,13 @@ func (e *Enc) execSelect(fr *Frame, x *ssa.Select, cur *pathState) {
 			continue
 		}
 		e.chanRecvGhost(fr, cur, eq(idx, fmt.Sprint(i)), s.Chan, tup[ri])
+		// a receive that reports !ok (closed channel) yields the zero value; lastrecvok(x.f)
+		if tup[ri].Tup == nil && tup[ri].S != "" && tup[ri].S != "Unit" {
+			if ch, isCh := s.Chan.Type().Underlying().(*types.Chan); isCh {
+				e.assume(implies(and(eq(idx, fmt.Sprint(i)), not(ok)), eq(tup[ri].T, e.zeroOf(ch.Elem()))))
+			}
+		}
+		e.chanOkGhost(fr, cur, eq(idx, fmt.Sprint(i)), s.Chan, ok)
 		ri++
 	}
 	e.note("select: the chosen ready case is arbitrary (no blocking or fairness modelled)")
@@ -1881,6 +1888,32 @@ func (e *Enc) chanFieldGhost(fr *Frame, cur *pathState, cond string, ch ssa.Valu
 	lc := e.comp(lastPfx+key, "(Array Ref "+v.S+")", "ghost", "G:chan")
 	lo := e.get(cur.st, lc)
 	e.set(cur.st, lc, ite(cond, store(lo, owner.T, v.T), lo))
+}
+
+// chanOkGhost: lastrecvok(x.f) - whether the last receive through channel field f of x delivered a
+// value (false: the channel was closed and drained).
+func (e *Enc) chanOkGhost(fr *Frame, cur *pathState, cond string, ch ssa.Value, ok string) {
+	ld, isLd := ch.(*ssa.UnOp)
+	if !isLd || ld.Op != token.MUL {
+		return
+	}
+	fa, isFa := ld.X.(*ssa.FieldAddr)
+	if !isFa {
+		return
+	}
+	stT, isSt := derefStruct(fa.X.Type())
+	if !isSt {
+		return
+	}
+	owner := e.val(fr, fa.X)
+	if owner.S != "Ref" {
+		return
+	}
+	fname := stT.Underlying().(*types.Struct).Field(fa.Field).Name()
+	key := e.structName(stT) + "_" + sanitize(fname)
+	oc := e.comp("chlastok_"+key, "(Array Ref Bool)", "ghost", "G:chan")
+	o := e.get(cur.st, oc)
+	e.set(cur.st, oc, ite(cond, store(o, owner.T, ok), o))
 }
 
 // ctxDone: ghost monotone boolean "context ctx is cancelled" as of the current state.
